@@ -1,15 +1,22 @@
-(* C12_Proofs4.v — witnesses: the two places where the code on the tree (as modelled, and as
+(* C12_Proofs4.v — witnesses: the one place where the code on the tree (as modelled, and as
    reproduced on real gorm by corpus/C12) still departs from the property; the former inputs of the
-   two defects fixed in /repo; non-vacuity. *)
+   three defects fixed in /repo; non-vacuity. *)
 From Verif Require Import Base C12_Model C12_Proofs3.
 Open Scope Z_scope.
 
 Definition bt_init : st := mk_st [(1, None)] [] [11; 12] [[]].
 
-(* belongs to, pointer foreign key: Unscoped().Replace(12) after Append(11) deletes 12, keeps 11 *)
-Lemma refuted_belongs_unscoped_replace :
+(* belongs to: Unscoped().Replace(12) after Append(11) removes the OLD record 11 and keeps the record
+   it has just linked (since fix 5e2c10c; before, with a pointer foreign key, it deleted 12);
+   replacing a target by itself keeps it *)
+Lemma former_belongs_unscoped_replace :
   let s := final KBelongs [1] bt_init [(false, OAppend [[11]]); (true, OReplace [[12]])] in
-  links KBelongs s 1 = [12] /\ tgt s = [11] /\ find_ids KBelongs [1] s = [].
+  links KBelongs s 1 = [12] /\ tgt s = [12] /\ find_ids KBelongs [1] s = [12].
+Proof. repeat split; vm_compute; reflexivity. Qed.
+
+Lemma belongs_unscoped_replace_same :
+  let s := final KBelongs [1] bt_init [(false, OAppend [[11]]); (true, OReplace [[11]])] in
+  links KBelongs s 1 = [11] /\ tgt s = [11; 12] /\ find_ids KBelongs [1] s = [11].
 Proof. repeat split; vm_compute; reflexivity. Qed.
 
 (* the inputs of two defects that were fixed in /repo (d23ce2a, 75c7076) now behave as the property
